@@ -231,7 +231,7 @@ class Driver(object):
             else:
                 self.sess = dict(op)
                 self.sess["token"] = ret["token"]
-        elif op["op"] in ("Clear", "Recreate"):
+        elif op["op"] in ("Clear", "Recreate", "ClearKeep"):
             self.sess = None
 
     def note(self, op):
@@ -396,6 +396,8 @@ class Driver(object):
             if rng.random() < 0.5:
                 rules = [(u.host_prefix(), rng.choice(RULES))]
             return {"op": name, "def": rng.choice([self.default, {"k": "domain"}]), "rules": rules}
+        if name == "Clear" and rng.random() < self.profile.get("clearkeep", 0.25):
+            return {"op": "ClearKeep"}
         if name == "Clear":
             rules = []
             if rng.random() < 0.5:
